@@ -171,7 +171,7 @@ class Gen(object):
             if insts:
                 opts += ['empty', 'empty']
             if not leaf:
-                opts += ['cmp', 'cmp', 'cmp', 'and', 'or', 'not', 'scmp']
+                opts += ['cmp', 'cmp', 'cmp', 'and', 'or', 'not', 'scmp', 'bcmp']
             k = r.choice(opts)
             if k == 'lit':
                 return B(r.random() < 0.5)
@@ -187,6 +187,10 @@ class Gen(object):
                            self.maybe_paren(self.expr('int', d + 1)))
             if k == 'scmp':
                 return Bin(r.choice(['==', '!=']), self.expr('str', d + 1), self.expr('str', d + 1))
+            if k == 'bcmp':
+                # booleans compared with each other (a literal on either side among them)
+                return Bin(r.choice(['==', '!=']), self.maybe_paren(self.expr('bool', self.maxdepth)),
+                           self.maybe_paren(self.expr('bool', self.maxdepth)))
             if k == 'not':
                 return Un('not', self.maybe_paren(self.expr('bool', d + 1)))
             return Bin('and' if k == 'and' else 'or', self.maybe_paren(self.expr('bool', d + 1)),
@@ -214,6 +218,19 @@ class Gen(object):
         """a where clause over `selected` of class cls"""
         r = self.rnd
         ints = [a for a, t in ATTRS[cls].items() if t == 'int']
+        if r.random() < 0.25:
+            # equalities between an attribute of the candidate and a literal of its type, alone or joined by and
+            def eq(a, t):
+                lit = {'int': lambda: I(r.randint(0, 3)), 'bool': lambda: B(r.random() < 0.5),
+                       'str': lambda: Str(r.choice(['', 'a', 'b']))}[t]()
+                f = Field({'t': 'selected'}, a)
+                return Bin('==', f, lit) if r.random() < 0.8 else Bin('==', lit, f)
+            names = sorted(ATTRS[cls].items())
+            r.shuffle(names)
+            e = eq(*names[0])
+            for a, t in names[1:r.choice([1, 1, 2, 3])]:
+                e = Bin('and', self.maybe_paren(e), self.maybe_paren(eq(a, t)))
+            return self.maybe_paren(e) if r.random() < 0.5 else e
         if ints and r.random() < 0.8:
             e = Bin(r.choice(['==', '!=', '<', '>=']), Field({'t': 'selected'}, r.choice(ints)), self.expr('int', self.maxdepth - 1))
         elif cls == 'A':
@@ -414,7 +431,7 @@ class Gen(object):
         intv = lambda: self.expr('int', self.maxdepth - 1)
         kinds = ['fcall_stmt', 'fcall_value', 'mix', 'classop', 'classop_value', 'bridge', 'bridge_assign', 'enum', 'const',
                  'bridge_value', 'ref_read']
-        kinds += ['udt_call', 'redeclare']
+        kinds += ['udt_call', 'redeclare', 'array', 'array']
         if self.home != 'derived':
             kinds += ['param', 'param_if', 'udt_param']        # a derived attribute has no parameters
         la = self.live_insts('A')
@@ -435,6 +452,30 @@ class Gen(object):
             self.scopes.pop()
             self.ok.pop()
             return body
+        if k == 'array':
+            # elements of array variables: the first assignment to an element declares the array (constant index) with the
+            # type of the value; later elements are written and read under any index expression; two dimensions
+            idx = lambda h, e: {'t': 'index', 'h': h, 'e': e}
+            ty = r.choice(['int', 'int', 'str', 'bool'])
+            lit = {'int': lambda: I(r.randint(0, 9)), 'str': lambda: Str(r.choice(['', 'a', 'x y'])), 'bool': lambda: B(r.random() < 0.5)}[ty]
+            arr = self.fresh('arr:' + ty, 'arr')
+            anyidx = lambda: I(r.randint(0, 3)) if r.random() < 0.6 else intv()
+            out = [Assign(idx(V(arr), I(r.randint(0, 4))), lit() if r.random() < 0.6 else self.expr(ty, self.maxdepth))]
+            if r.random() < 0.7:
+                rhs = idx(V(arr), anyidx())
+                if ty == 'int':
+                    rhs = Bin(r.choice(['+', '*', '-']), rhs, I(r.randint(1, 3)))
+                out.append(Assign(idx(V(arr), anyidx()), rhs))
+            if r.random() < 0.8:
+                out.append(assign_new(ty, 'e', idx(V(arr), anyidx())))
+            if r.random() < 0.4:
+                m = self.fresh('arr:int', 'mat')
+                out.append(Assign(idx(idx(V(m), I(r.randint(0, 2))), I(r.randint(0, 2))), intv()))
+                out.append(assign_new('int', 'c', Bin('+', idx(idx(V(m), anyidx()), anyidx()), I(1))))
+            if ty == 'int' and r.random() < 0.4:
+                out.append(If(Bin('>', idx(V(arr), anyidx()), I(r.randint(0, 5))),
+                              scoped(lambda: [Assign(idx(V(arr), anyidx()), I(0))])))
+            return out
         if k == 'fcall_stmt':
             return {'t': 'call', 'inv': {'t': 'fcall', 'n': 'fact', 'ps': ps(n=intv())}}
         if k == 'fcall_value':
@@ -494,7 +535,9 @@ class Gen(object):
         if k == 'enum':
             return assign_new('int', 'c', {'t': 'enum', 'ns': 'Color', 'n': r.choice(['RED', 'GREEN', 'BLUE'])})
         if k == 'const':
-            return assign_new('int', 'l', Bin('+', {'t': 'enum', 'ns': 'Group', 'n': 'LIMIT'}, I(1)))
+            # (two constant specifications hold a constant LIMIT)
+            ns, n = r.choice([('Group', 'LIMIT'), ('Bounds', 'LIMIT'), ('Bounds', 'LIMIT'), ('Bounds', 'FLOOR')])
+            return assign_new('int', 'l', Bin('+', {'t': 'enum', 'ns': ns, 'n': n}, I(1)))
         if k == 'self_attr':
             return Assign(Field({'t': 'self'}, 'N'), intv())
         if k == 'self_read':
@@ -672,6 +715,23 @@ class Gen(object):
                     {'t': 'call', 'inv': {'t': 'icall', 'kind': 'bridge', 'ns': 'LOG', 'n': 'LogInfo', 'ps': []}},
                     {'t': 'call', 'inv': {'t': 'icall', 'kind': 'class', 'ns': 'A', 'n': 'op', 'ps': []}},
                     {'t': 'control'}, {'t': 'delete', 'v': r.choice(['x', 'self'])}, Ret()])
+        # the seam between a condition (or the set of a for each) and the block when the optional word then / loop is
+        # left out: conditions ending in a name, a field, a literal, a parenthesis; blocks beginning with an invocation
+        # that starts with `::`, a bridge call, an assignment to self, an empty statement (four renderings each, so that
+        # the word is dropped in some of them)
+        ends = [V('busy'), Field(V('x'), 'ready'), Un('not', V('done')), {'t': 'paren', 'e': V('busy')}, B(True),
+                Un('not_empty', V('x')), Bin('==', V('n'), V('m'))]
+        firsts = [lambda: {'t': 'call', 'inv': {'t': 'fcall', 'n': r.choice(['tick', kwid()]), 'ps': ps(r.randint(0, 1))}},
+                  lambda: {'t': 'call', 'inv': {'t': 'icall', 'kind': 'bridge', 'ns': 'LOG', 'n': 'LogInfo', 'ps': ps(1)}},
+                  lambda: Assign(Field({'t': 'self'}, 'N'), I(1)),
+                  lambda: {'t': 'empty'}]
+        for rep in range(4):
+            c = lambda: ends[r.randrange(len(ends))] if rep else ends[0]
+            f = lambda: firsts[r.randrange(len(firsts))]() if rep > 1 else firsts[0]()
+            out.append([{'t': 'while', 'c': c(), 'b': [f(), {'t': 'break'}]},
+                        If(c(), [f()], [(c(), [f()]), (c(), [f(), f()])], [f()]),
+                        {'t': 'for', 'v': 'item', 's': 'items', 'b': [f()]},
+                        If(c(), [f(), f()])])
         return out
 
     def setup(self):
@@ -832,10 +892,53 @@ class Gen(object):
         out.append(Assign(Field(V(a), 'N'), V(t)))
         return out
 
+    def literal_patterns(self):
+        """selections whose where clause compares attributes of the candidate with literals of every type (true / false,
+        strings, numbers; the literal on either side; one comparison or several joined by and), over As that differ in
+        exactly those attributes; the size of every selection (the N of a single instance) is folded into a number"""
+        r = self.rnd
+        out = []
+        first = None
+        for j in range(r.randint(3, 5)):
+            a = self.fresh('inst:A', 'a')
+            self.ok[-1].add(a)
+            first = first or a
+            out += [{'t': 'create', 'v': a, 'k': 'A'}, Assign(Field(V(a), 'N'), I(j + 1)),
+                    Assign(Field(V(a), 'F'), B(r.random() < 0.5)), Assign(Field(V(a), 'S'), Str(r.choice(['', 'a', 'b'])))]
+        t = self.fresh('int', 't')
+        out.append(Assign(V(t), I(0)))
+
+        def eq(name):
+            lit = {'N': lambda: I(r.randint(1, 4)), 'F': lambda: B(r.random() < 0.6), 'S': lambda: Str(r.choice(['', 'a', 'b']))}[name]()
+            f = Field({'t': 'selected'}, name)
+            op = '==' if r.random() < 0.85 else '!='
+            return Bin(op, f, lit) if r.random() < 0.8 else Bin(op, lit, f)
+        for _ in range(r.randint(3, 6)):
+            names = r.sample(['F', 'F', 'S', 'N'], r.choice([1, 1, 2, 2, 3]))
+            names = [n for k, n in enumerate(names) if n not in names[:k]]
+            e = eq(names[0])
+            for n in names[1:]:
+                e = Bin('and', e, eq(n))
+            if r.random() < 0.5:
+                e = {'t': 'paren', 'e': e}
+            if r.random() < 0.6:
+                v = self.fresh('set:A', 'v')
+                out.append({'t': 'select_from', 'card': 'many', 'v': v, 'k': 'A', 'haswhere': True, 'w': e})
+                out.append(Assign(V(t), Bin('+', Bin('*', V(t), I(10)), Un('cardinality', V(v)))))
+            else:
+                v = self.fresh('inst:A', 'v')
+                out.append({'t': 'select_from', 'card': 'any', 'v': v, 'k': 'A', 'haswhere': True, 'w': e})
+                out.append(If(Un('not_empty', V(v)), [Assign(V(t), Bin('+', Bin('*', V(t), I(10)), Field(V(v), 'N')))],
+                              [], [Assign(V(t), Bin('*', V(t), I(10)))]))
+        out.append(Assign(Field(V(first), 'N'), V(t)))
+        return out
+
     def program(self, nstmts=None, final_return=True, setup=False, patterns=False):
         body = self.setup() if setup else []
         if patterns == 'select':
             body += self.select_patterns()
+        elif patterns == 'literal':
+            body += self.literal_patterns()
         elif patterns:
             body += self.loop_patterns()
         for _ in range(nstmts or self.rnd.randint(2, 6)):
